@@ -108,14 +108,15 @@ func diffLines(a, b string) string {
 }
 
 func TestPropConvergence(t *testing.T) {
-	sub := stats.NewSub("convergence-vs-fresh-gateway", "rapid: history of 2-10 events over two clusters (create/update with a new valid version: servers, disabled flags, policies, schemas incl. type changes and removals, feature-gate annotation added/changed/dropped, logging, serving cert / client CA / server names; delete; duplicate delivery), optionally followed by an admission-race episode (a version claiming a name owned by the other cluster fails and is retried after newer versions were applied); oracle: fingerprint(live) == fingerprint(fresh controller with only the latest objects); non-trivial = a field is removed or restored between versions of a cluster, or a retry of a superseded version is delivered after a newer one; distinct by FNV-64 of the op trace")
+	sub := stats.NewSub("convergence-vs-fresh-gateway", "rapid: history of 2-10 events over two clusters (create/update with a new valid version: servers, disabled flags, policies, schemas incl. type changes and removals, feature-gate annotation added/changed/dropped, logging, serving cert / client CA / server names; delete; duplicate delivery; a version whose sync fails (unusable client CA / key pair stored past admission) with other fields changed too, later superseded by a valid one), optionally followed by an admission-race episode (a version claiming a name owned by the other cluster fails and is retried after newer versions were applied); oracle: fingerprint(live) == fingerprint(fresh controller with only the latest objects); non-trivial = a field is removed or restored between versions of a cluster, or a retry of a superseded version is delivered after a newer one; distinct by FNV-64 of the op trace")
 	known := findings.Open(staleRetryFinding)
-	stats.Check(t, stats.N(500, 8000), func(t *rapid.T) {
+	stats.Check(t, stats.N(1500, 8000), func(t *rapid.T) {
 		live := ctlbox.New()
 		defer live.Close()
 		stored := map[string]*proxyv1alpha1.UpstreamCluster{}
 		trace := ""
 		nt := false
+		unapplicable := map[string]bool{}
 		sub.Eval()
 		upsert := func(t *rapid.T, label, name string) {
 			taken := claimed(stored, name)
@@ -163,8 +164,46 @@ func TestPropConvergence(t *testing.T) {
 					}
 					trace += "redeliver " + name + "\n"
 				}
+			case 2:
+				// a version that cannot be applied (stored although admission would refuse it, e.g. written before a
+				// validation rule existed): unusable client CA or key pair, together with other changes; its sync fails
+				taken := claimed(stored, name)
+				var free []string
+				for _, a := range aliases {
+					if !taken[strings.ToLower(a)] {
+						free = append(free, a)
+					}
+				}
+				bad := genObj(t, fmt.Sprintf("bad%d", i), name, free)
+				if rapid.Bool().Draw(t, "badCA") {
+					bad.Spec.SecureServing.ClientCAData = []byte("-----BEGIN CERTIFICATE-----\nAAAA\n-----END CERTIFICATE-----\n")
+				} else {
+					bad.Spec.SecureServing.CertData, bad.Spec.SecureServing.KeyData = pki.Pool(3)[0].CertPEM, pki.Pool(3)[1].KeyPEM
+				}
+				res, err := live.Apply(bad)
+				trace += "UNAPPLICABLE upsert " + gen.ClusterString(bad) + fmt.Sprintf(" -> err=%v requeue=%v\n", err != nil, res.RequeueAfter > 0)
+				if err == nil && res.RequeueAfter == 0 {
+					t.Fatalf("harness: the corrupted version was applied without failure\ntrace:\n%s", trace)
+				}
+				nt = true
+				sub.Class("failed-attempt")
+				// the stored object is what the lister returns; a later valid version supersedes it
+				stored[name] = bad
+				unapplicable[name] = true
 			default:
 				upsert(t, fmt.Sprintf("v%d", i), name)
+				delete(unapplicable, name)
+			}
+		}
+		// the comparison needs latest objects that can be applied: supersede versions that cannot
+		for _, name := range names {
+			if unapplicable[name] {
+				if rapid.Bool().Draw(t, "retryFailed."+name) {
+					_, _ = live.Deliver(stored[name]) // the queue retries the failed attempt first
+					trace += "RETRY of the failed version of " + name + "\n"
+				}
+				upsert(t, "repair."+name, name)
+				delete(unapplicable, name)
 			}
 		}
 		// optional admission-race episode
